@@ -42,10 +42,12 @@ pub fn scopes(rep: &Report, checks: Checks) {
     let nokey = |i: usize| vec![Cfg::CHEAP, Cfg { fmt: crate::codec::Fmt::Json, alg: crate::keys::ALGS[i % 3], decoys: i % 2 == 0, hk: crate::keys::Hk::None }];
     run_structures(rep, "cnf as an ordinary user claim: 16 cnf values x 3 positions x 6 strategies x all selections, no holder key bound", &cnf_user_trees(), &cnf_strategies, &nokey, checks, true);
     // D6: iat of every shape; string lengths across 256 / 1024 / 4096 / 16384; > 4096 digests in one credential
-    run_structures(rep, "iat value shapes: 11 values x 3 positions x fixed strategies x all selections", &iat_trees(), &fixed_strategies, &nokey, checks, true);
+    let iat_cfgs = |i: usize| vec![Cfg::CHEAP, Cfg { fmt: crate::codec::FMTS[i % 2], alg: crate::keys::Alg::HS256, decoys: false, hk: if i % 3 == 0 { crate::keys::Hk::Ed } else { crate::keys::Hk::Es } }];
+    run_structures(rep, "iat value shapes: 11 values x 3 positions x fixed strategies x all selections, without and with key binding", &iat_trees(), &fixed_strategies, &iat_cfgs, checks, true);
     run_structures(rep, "length sweep: one string claim of every length from B-90 to B+9 for B in {256, 1024, 4096, 16384}, visible and hidden", &length_sweep_trees(), &sweep_strategies, &cheap, checks, false);
     let vw_cfgs = |_: usize| vec![Cfg::CHEAP, Cfg { decoys: true, ..Cfg::CHEAP }];
     run_structures_with(rep, "very wide: 1100 objects with a hidden member each (about 5500 digests with decoys) x {All, Top} x select all / nothing", &very_wide_trees(), &very_wide_strategies, &all_or_nothing, &vw_cfgs, checks);
+    run_structures_with(rep, "count sweep: every member / element count 0..40 and around 64, 128, 256 x {NoSD, Top, All} x select all / nothing, decoys off and on", &count_sweep_trees(), &count_sweep_strategies, &all_or_nothing, &vw_cfgs, checks);
     // E: depth chains
     let ch = chains(8);
     run_structures(rep, "depth chains: all object/array patterns of a single nested path", &ch, &few_strategies, &rot, checks, true);
